@@ -20,6 +20,7 @@ from sa.pyfront import Program
 from sa.symex import Interp
 
 RULES = {
+    "R-C20-e": "the callback read inside a pooled task is the one the caller set: check_interrupt is a plain attribute, not a property over threading.local storage (worker threads have their own, empty, slot)",
     "R-C20-a": "check_interrupt is called exactly once per task, before any store or effectful call, outside loops of the task, guarded only by `is not None`",
     "R-C20-b": "no try/except or suppressing context manager between the public method and the callback can complete without re-raising",
     "R-C20-c": "pooled dispatch is blocking and re-raising; the pool is the subject of a with-statement (closed on the exceptional exit)",
@@ -219,6 +220,31 @@ def main(tier):
         analyse_one(prog, module, cls, rep)
     n = rep.floors.pop("R-C20-b", (0, 0))
     rep.floor("R-C20-b", n[0], n[1])
+    # R-C20-e: the callback the tasks read is the one the caller set - the tasks run on the pool's worker threads, so it
+    # must not live in per-thread storage (sa/tls.py).  Zero thread-locals are expected; the rule still states what it saw.
+    from sa import tls
+    finds, inv = tls.scan(prog)
+    k = 0
+    for kind, where, cons, detail in finds:
+        if kind == "property" and "check_interrupt" in cons:
+            k += 1
+            rep.violated("R-C20-e", where, cons, "the cancellation callback is looked up in thread-local storage: " + detail + " (None), so an interrupt requested by the caller is never consulted in pooled mode",
+                         witness={"schedule": "cube.parallel = True; cube.check_interrupt = raise_now; cube.calculate(...) returns a full result, the callback is consulted 0 times"})
+        elif kind == "property":
+            k += 1
+            rep.undecided("R-C20-e", where, cons, detail)
+    for module, cls in (("ccubes", "ccube"), ("xcubes", "xcube")):
+        c = prog.cls(module, cls)
+        plain = "check_interrupt" in c.attrs and "check_interrupt" not in c.methods
+        prop = c.methods.get("check_interrupt")
+        cons = "%s.check_interrupt is a plain attribute shared by all threads" % cls
+        if plain:
+            rep.proved("R-C20-e", "%s:%s" % (module, cls), cons, "class attribute, no property / descriptor in front of it")
+        elif prop is not None and not any(w.startswith("%s:%s.check_interrupt" % (module, cls)) for _, w, _, _ in finds):
+            rep.undecided("R-C20-e", prop.fq, cons, "check_interrupt is computed by a method / property: what a worker thread sees is not decided")
+        elif prop is None:
+            rep.undecided("R-C20-e", "%s:%s" % (module, cls), cons, "no class-level default found (anchor moved)")
+    rep.analysed["thread_local_objects"] = inv
     return rep.finish()
 
 
